@@ -315,13 +315,19 @@ def _mp_tile_worker(queue, done_event, pio, _kwargs):
     tile_parity_sign = pio.get_default_vertical_parity_sign()
 
     while True:
+        # Test the shutdown flag *before* waiting on the queue. The flag is
+        # only raised once every item has been flushed into the queue, so a
+        # timeout that follows a raised flag means the queue is drained;
+        # testing it after the timeout could drop items queued in between.
+        done = done_event.is_set()
+
         try:
             # un-pickling WCS objects always triggers warnings right now
             with warnings.catch_warnings():
                 warnings.simplefilter("ignore")
                 image, desc = queue.get(True, timeout=1)
         except Empty:
-            if done_event.is_set():
+            if done:
                 break
             continue
 
